@@ -204,6 +204,16 @@ class PlanJoinTSPredictorQuery:
 
         time_filter = find_time_filter(preparation_where, time_column_name=predictor_time_column_name)
 
+        # `'2020-01-01' < t` is `t > '2020-01-01'`: put the order column on the left,
+        # the branches below look at the operator and take args[1] as the date
+        mirrored_ops = {'>': '<', '>=': '<=', '<': '>', '<=': '>=', '=': '='}
+        if (
+            isinstance(time_filter, BinaryOperation) and time_filter.op in mirrored_ops
+            and not isinstance(time_filter.args[0], Identifier) and isinstance(time_filter.args[1], Identifier)
+        ):
+            time_filter.args = [time_filter.args[1], time_filter.args[0]]
+            time_filter.op = mirrored_ops[time_filter.op]
+
         order_by = [OrderBy(Identifier(parts=[predictor_time_column_name]), direction='DESC')]
 
         query_modifiers = query.modifiers
